@@ -295,6 +295,62 @@ Proof.
   destruct (query_walk i po xs); inv E. split; reflexivity.
 Qed.
 
+(* ---- tok: the copy carries the original's members, the token list included, whatever it holds ---- *)
+Lemma copy_opt_abs' x x' : copy_opt pcre x = Ok x' -> abs_opt x' = abs_opt x.
+Proof.
+  destruct x as [y|]; cbn [copy_opt]; intros E.
+  - destruct (copy pcre y) as [y'|] eqn:Ey; cbn [bind] in E; [|discriminate]. inv E.
+    cbn [abs_opt]. now rewrite (copy_abs pcre y y' Ey).
+  - inv E. reflexivity.
+Qed.
+Theorem dup_tok_members a b l ch y : copy pcre (OTok a b l ch) = Ok y ->
+  exists a' b' l', y = OTok a' b' l' ch /\ abs_opt a' = abs_opt a /\ abs_opt b' = abs_opt b /\ abs_opt l' = abs_opt l.
+Proof.
+  rewrite copy_tok. intros E.
+  destruct (copy_opt pcre a) as [a'|] eqn:Ea; cbn [bind] in E; [|discriminate].
+  destruct (copy_opt pcre l) as [l'|] eqn:El; cbn [bind] in E; [|discriminate].
+  destruct (copy_opt pcre b) as [b'|] eqn:Eb; cbn [bind] in E; [|discriminate]. inv E.
+  exists a', b', l'. split; [reflexivity|]. auto using copy_opt_abs'.
+Qed.
+(* the character setters store a character and leave the token list as it is (it is then out of
+   step with the members until the next eval - a reachable state dup has to copy faithfully) *)
+Theorem tok_set_char_keeps_list w t which c w' r a b l ch :
+  get w t = Ok (OTok a b l ch) -> step w (TokSetChar t which c) = Ok (w', r) ->
+  exists ch', lookup t (held w') = Some (OTok a b l ch') /\ ledger w' = ledger w.
+Proof.
+  intros G E. cbn [World.step] in E. rewrite G in E. cbn [bind] in E. apply get_ok in G.
+  match type of E with (if ?c then _ else _) = _ => destruct c end; [discriminate|].
+  destruct which as [|[|[|?]]]; try discriminate; inv E; cbn [held ledger]; eexists;
+    (split; [eapply lookup_put_same; eauto|reflexivity]).
+Qed.
+
+(* ---- constructors from a stream: either an object whose footprint is exactly what was
+        allocated, or NULL with nothing left allocated and nothing else changed ---- *)
+Theorem stream_new_spec w c v k content pos w' r :
+  step w (NewFromStream c v k content pos) = Ok (w', r) ->
+  (exists b o, stream_text c v k content pos = Ok (Some b) /\ r = RNew (next w) false /\
+               held w' = held w ++ [(next w, o)] /\ abs o = abs (stream_obj c b) /\
+               ledger w' = ledger w + footprint o) \/
+  (stream_text c v k content pos = Ok None /\ r = RNew (next w) true /\ held w' = held w /\ ledger w' = ledger w).
+Proof.
+  intros E. cbn [World.step] in E.
+  destruct (stream_text c v k content pos) as [[b|]|]; cbn [bind] in E; [| |discriminate].
+  - left. unfold fresh in E.
+    pose proof (relabel_abs (stream_obj c b) (naddr w)) as Ra. pose proof (relabel_footprint (stream_obj c b) (naddr w)) as Rf.
+    destruct (relabel (stream_obj c b) (naddr w)) as [o na]. cbn [fst] in *. cbn [hand_back] in E. inv E.
+    exists b, o. cbn [held ledger]. rewrite Rf. auto.
+  - right. cbn [hand_back] in E. inv E. auto.
+Qed.
+(* a seekable, non-empty file whose stream is already at its end: the buffer constructors return NULL *)
+Theorem stream_mbuff_at_eof v content : content <> [] ->
+  stream_text SMbuff v KReg content (Z.of_nat (length content)) = Ok None.
+Proof.
+  intros N. unfold stream_text.
+  replace ((Z.of_nat (length content) <? 0) || (Z.of_nat (length content) <? Z.of_nat (length content))) with false
+    by (symmetry; apply Bool.orb_false_intro; [apply Z.ltb_ge; lia|apply Z.ltb_irrefl]).
+  rewrite Nat2Z.id, skipn_all. destruct content; [congruence|]. destruct v; reflexivity.
+Qed.
+
 (* ---- type ---- *)
 Theorem type_step w h x w' r :
   get w h = Ok x -> step w (TypeOf h) = Ok (w', r) -> w' = w /\ r = RType (tag_of x) /\ x <> ORaw.
@@ -302,6 +358,57 @@ Proof.
   intros G E. cbn [World.step] in E. rewrite G in E. cbn [bind] in E. destruct x; inv E; repeat split; discriminate.
 Qed.
 End Spec.
+
+(* the scanner run with the default quote / dquote / escape members is the quoting grammar of
+   property C12 (Split/SplitModel.sm, tied to the C scanner there) *)
+Lemma smq_cons ch d i q c t :
+  smq ch d i q (c :: t) =
+  if (q =? 0) && SplitModel.delim d c then (if i then [] :: smq ch d false 0 t else smq ch d false 0 t)
+  else if is_qc ch c then
+    if q =? 0 then smq ch d true c t
+    else if q =? c then smq ch d true 0 t
+    else SplitModel.push c (smq ch d true q t)
+  else if c =? ch_escape ch then
+    match t with
+    | c2 :: t2 =>
+      if SplitModel.delim d c2 || (negb (q =? 0) && (q =? c2)) then SplitModel.push c2 (smq ch d true q t2)
+      else SplitModel.push c (smq ch d true q t)
+    | [] => [[c]]
+    end
+  else SplitModel.push c (smq ch d true q t).
+Proof. reflexivity. Qed.
+Lemma sm_cons d i q c t :
+  SplitModel.sm d i q (c :: t) =
+  if (q =? 0) && SplitModel.delim d c then (if i then [] :: SplitModel.sm d false 0 t else SplitModel.sm d false 0 t)
+  else if SplitModel.is_q c then
+    if q =? 0 then SplitModel.sm d true c t
+    else if q =? c then SplitModel.sm d true 0 t
+    else SplitModel.push c (SplitModel.sm d true q t)
+  else if c =? 92 then
+    match t with
+    | c2 :: t2 =>
+      if SplitModel.delim d c2 || (negb (q =? 0) && (q =? c2)) then SplitModel.push c2 (SplitModel.sm d true q t2)
+      else SplitModel.push c (SplitModel.sm d true q t)
+    | [] => [[c]]
+    end
+  else SplitModel.push c (SplitModel.sm d true q t).
+Proof. reflexivity. Qed.
+Lemma smq_default_len d : forall n s, (length s <= n)%nat ->
+  forall i q, smq default_chars d i q s = SplitModel.sm d i q s.
+Proof.
+  induction n as [|n IH]; intros [|c t] L i q; try reflexivity; cbn [length] in L; try lia.
+  rewrite smq_cons, sm_cons. unfold is_qc, SplitModel.is_q.
+  cbn [default_chars ch_quote ch_dquote ch_escape fst snd].
+  destruct t as [|c2 t2].
+  - reflexivity.
+  - rewrite !(IH (c2 :: t2)), !(IH t2) by (cbn [length] in *; lia). reflexivity.
+Qed.
+Theorem smq_default d s i q : smq default_chars d i q s = SplitModel.sm d i q s.
+Proof. apply (smq_default_len d (length s)). lia. Qed.
+Theorem tok_tokens_default src sep :
+  tok_tokens default_chars src sep =
+  map (fun t => Some (tok_obj t)) (map SplitModel.trim (SplitModel.tokens sep src)).
+Proof. unfold tok_tokens, SplitModel.tokens. now rewrite smq_default. Qed.
 
 (* type() names the class: the table generated from the SPIF_DECL_CLASSNAME entries gives every
    class its own name "!spif_<class>_t!" *)
